@@ -8,6 +8,8 @@ for f in $(git diff --name-only --diff-filter=U); do
   case "$f" in
     lean/NV.lean|lean/Drive/Main.lean) git checkout --ours "$f" 2>/dev/null; python3 tools/gen_main.py; git add "$f";;
     evidence/*) git checkout --theirs "$f"; git add "$f";;
+    KNOWN_FINDINGS.jsonl) python3 tools/mergeknown.py $id;;
+    lean/NV/Gen/*) git checkout --theirs "$f"; git add "$f";;   # regenerated on every run
     *) echo "REAL CONFLICT: $f";;
   esac
 done
